@@ -21,6 +21,12 @@ var unquoteToken = token.ByType(token.UNQUOTE)
 func (s *State) evalAssignment(right object.Object, node *ast.InfixExpression) object.Object {
 	right = object.CopyRegister(right) // assign the current value of an integer parameter/loop variable, not its register.
 	if rt := right.Type(); rt == object.ERROR {
+		// (the message only: with the stack, the text of up to 10 functions, for every nested assignment being
+		// unwound, this could take minutes and GBs of logs)
+		if e, ok := right.(object.Error); ok {
+			log.Warnf("Not assigning %q", e.Value)
+			return right
+		}
 		log.Warnf("Not assigning %q", right.Inspect())
 		return right
 	}
